@@ -108,7 +108,7 @@ def check(case, ctx):
 
     def judge(label, fn, exp_dims, src=m, introduced=(), new_labels=None, operands=None, exp_values=None, key=fam, relax_none=()):
         label = label + base
-        res, exc = ctx.call(label, fn, operands=operands or (a,), meta='carry')
+        res, exc = ctx.call(label, fn, operands=operands or (a,), meta='carry', meta_owner=ID)
         ctx.outcomes['variants-checked'] += 1
         if exc is not None:
             ctx.v(ID, key + ":raised:" + type(exc).__name__, "%s raised %s: %s" % (label, type(exc).__name__, str(exc)[:200]))
@@ -256,7 +256,7 @@ def check(case, ctx):
             tl = [901, 902, 903]
             taxes = [da.Axis(gen.np_labels(l, k), d) if q != i else da.Axis(np.array(tl), d) for q, (d, l, k) in enumerate(own)]
             src = model.MA(m.values, m.dims, m.labels)
-            res, exc = ctx.call("a.broadcast(target with longer axis %r)" % m.dims[i] + base, lambda: a.broadcast(taxes), operands=(a,), meta='carry')
+            res, exc = ctx.call("a.broadcast(target with longer axis %r)" % m.dims[i] + base, lambda: a.broadcast(taxes), operands=(a,), meta='carry', meta_owner=ID)
             ctx.outcomes['variants-checked'] += 1
             if exc is not None:
                 ctx.v(ID, "broadcast:raised:" + type(exc).__name__, "a.broadcast onto a longer axis for singleton dim %r%s raised %s: %s" % (m.dims[i], base, type(exc).__name__, str(exc)[:150]))
